@@ -30,6 +30,7 @@ type Handed struct {
 	Direct int  // >=0: index of the SendDirect call it belongs to (free mode: identified by goroutine)
 	Failed bool // the client answered this hand-over with an error
 	At     time.Time
+	Dest   int // which client's SendFlush was called (0: the one given at construction; see altClient)
 }
 
 type recClient struct {
@@ -48,6 +49,25 @@ type recClient struct {
 var errInjected = errors.New("injected transmission error")
 
 func (c *recClient) SendFlush(p pack.Pack, flush bool, opts ...wnet.TcpClientOption) error {
+	return c.sendFlushAs(0, p)
+}
+
+// altClient is another TCP client (number id) installed with SetTcpClient; the clients of one case
+// share the recording, so the order of the hand-overs across clients is kept.
+type altClient struct {
+	wnet.EmptyTcpClient
+	main *recClient
+	id   int
+}
+
+func (a *altClient) SendFlush(p pack.Pack, flush bool, opts ...wnet.TcpClientOption) error {
+	return a.main.sendFlushAs(a.id, p)
+}
+func (a *altClient) Send(p pack.Pack, opts ...wnet.TcpClientOption) error {
+	return a.main.sendFlushAs(a.id, p)
+}
+
+func (c *recClient) sendFlushAs(dest int, p pack.Pack) error {
 	z, ok := p.(*pack.ZipPack)
 	if c.slow > 0 {
 		defer time.Sleep(c.slow) // runs after the unlock below: the "transmission" follows the hand-over
@@ -55,10 +75,10 @@ func (c *recClient) SendFlush(p pack.Pack, flush bool, opts ...wnet.TcpClientOpt
 	c.mu.Lock()
 	defer c.mu.Unlock()
 	if !ok {
-		c.got = append(c.got, &Handed{Count: -1, OpIdx: c.opIdx, Direct: -1})
+		c.got = append(c.got, &Handed{Count: -1, OpIdx: c.opIdx, Direct: -1, Dest: dest})
 		return nil
 	}
-	h := &Handed{Snap: append([]byte{}, z.Records...), Count: z.RecordCount, Status: z.Status, OpIdx: c.opIdx, Direct: -1, At: time.Now()}
+	h := &Handed{Snap: append([]byte{}, z.Records...), Count: z.RecordCount, Status: z.Status, OpIdx: c.opIdx, Direct: -1, At: time.Now(), Dest: dest}
 	if z.Records == nil {
 		h.Snap = nil
 	}
@@ -216,6 +236,13 @@ type evalCtx struct {
 	byPtr  map[*pack.LogSinkPack]int
 	finds  []finding
 	isProp bool
+	probes []probe // wire-format questions for the model (Golib.ZipSender.Wire), a few per case
+}
+
+// probe: one request line for the model driver and the answer the implementation gave
+type probe struct {
+	Line string `json:"line"`
+	Want string `json:"want"`
 }
 
 func newEvalCtx(specs []RecSpec) *evalCtx {
@@ -341,7 +368,118 @@ func (e *evalCtx) checkPack(h *Handed, site string, zipMin int64, idx int) ([]in
 	if d.Zipped != wantZip {
 		e.prop(site+":zipped-flag", "pack #%d: payload %d bytes, threshold %d, compressed=%v", idx, len(d.Raw), zipMin, d.Zipped)
 	}
+	if len(ids) == h.Count {
+		e.checkWire(h, d, ids, site, idx)
+	}
 	return ids, d
+}
+
+// checkWire follows the pack beyond the hand-over, with the real code of lang/pack/ZipPack.go:
+// (1) the client transmits it: pack.WritePack; the receiver's pack.ReadPack must deliver a ZipPack with
+// the same header, Status, RecordCount and Records and leave what follows in the stream; (2) the
+// receiver decompresses when Status == ZIPPED and calls ZipPack.GetRecords: exactly the pack's records,
+// in order, each stamped with the container's Pcode/Oid/Okind/Onode, its own Time kept; (3)
+// ZipPack.SetRecords of those records builds the same payload and count as the sender's incremental
+// batching did.  A few small packs per case are also put to the model (`W` / `U` lines).
+func (e *evalCtx) checkWire(h *Handed, d *Decoded, ids []int, site string, idx int) {
+	z := pack.NewZipPack()
+	z.Pcode = []int64{0, 7, -3, 1 << 40, 123456789}[idx%5]
+	z.Oid = int32(idx*7919 + 1)
+	if idx%3 != 0 {
+		z.Okind = int32(idx + 1)
+	}
+	if idx%4 == 1 {
+		z.Onode = -5
+	}
+	z.Time = t0 + int64(idx)
+	z.Status, z.RecordCount, z.Records = h.Status, h.Count, h.Snap
+	sentinel := []byte{0xA5, 0x5A, 0x42}
+	var wire []byte
+	var back pack.Pack
+	left := -1
+	o := vh.Guard(func() {
+		dout := gio.NewDataOutputX()
+		pack.WritePack(dout, z)
+		wire = dout.ToByteArray()
+		in := gio.NewDataInputX(append(append([]byte{}, wire...), sentinel...))
+		back = pack.ReadPack(in)
+		left = int(in.Available())
+	})
+	zb, ok := back.(*pack.ZipPack)
+	if !o.OK() || !ok || zb == nil {
+		e.prop("transmit:zip-pack-not-read-back", "pack #%d (%s, count %d, status %d, %d bytes): written with pack.WritePack and read with pack.ReadPack it does not come back as a ZipPack (%T; %s)",
+			idx, site, h.Count, h.Status, len(h.Snap), back, vh.Clip(o.Panic, 160))
+		return
+	}
+	if zb.Pcode != z.Pcode || zb.Oid != z.Oid || zb.Okind != z.Okind || zb.Onode != z.Onode || zb.Time != z.Time ||
+		zb.Status != z.Status || zb.RecordCount != z.RecordCount || !bytes.Equal(zb.Records, z.Records) || left != len(sentinel) {
+		e.prop("transmit:zip-pack-not-read-back", "pack #%d (%s): written with pack.WritePack and read back: header %d/%d/%d/%d/%d -> %d/%d/%d/%d/%d, status %d -> %d, count %d -> %d, payload %d -> %d bytes (equal=%v), %d bytes left in the stream (3 follow the pack)",
+			idx, site, z.Pcode, z.Oid, z.Okind, z.Onode, z.Time, zb.Pcode, zb.Oid, zb.Okind, zb.Onode, zb.Time, z.Status, zb.Status, z.RecordCount, zb.RecordCount,
+			len(z.Records), len(zb.Records), bytes.Equal(zb.Records, z.Records), left)
+		return
+	}
+	// (2) the receiving side
+	if len(ids) > 0 {
+		var got []pack.Pack
+		o = vh.Guard(func() {
+			if zb.Status == pack.ZIPPED {
+				raw, err := compressutil.UnZip(zb.Records)
+				if err != nil {
+					panic("unzip: " + err.Error())
+				}
+				zb.Records = raw
+			}
+			got = zb.GetRecords()
+		})
+		bad := ""
+		switch {
+		case !o.OK():
+			bad = "panicked: " + vh.Clip(o.Panic, 160)
+		case len(got) != len(ids):
+			bad = fmt.Sprintf("returned %d records, the pack holds %d", len(got), len(ids))
+		default:
+			for i, g := range got {
+				ls, ok := g.(*pack.LogSinkPack)
+				if !ok {
+					bad = fmt.Sprintf("record %d is a %T", i, g)
+					break
+				}
+				w := e.recs[ids[i]].Want
+				w.Pcode, w.Oid, w.Okind, w.Onode = z.Pcode, z.Oid, z.Okind, z.Onode // stamped; Time stays the record's
+				if df := diffWant(wantOfDecoded(ls), w); df != "" {
+					bad = fmt.Sprintf("record %d (id %d) — %s", i, ids[i], df)
+					break
+				}
+			}
+		}
+		if bad != "" {
+			e.prop("receive:GetRecords-differs", "pack #%d (%s, count %d, status %d): transmitted, read back, decompressed when flagged: ZipPack.GetRecords %s", idx, site, h.Count, h.Status, bad)
+		}
+	}
+	// (3) SetRecords of the decoded records = the sender's batch
+	{
+		items := make([]pack.Pack, len(d.Recs))
+		for i, r := range d.Recs {
+			items[i] = r
+		}
+		z2 := pack.NewZipPack()
+		o = vh.Guard(func() { z2.SetRecords(items) })
+		if !o.OK() || z2.RecordCount != h.Count || !bytes.Equal(z2.Records, d.Raw) {
+			e.corr("ZipPack.SetRecords:differs-from-sender-batching", "pack #%d (%s): ZipPack.SetRecords of its %d records gives count %d and %d payload bytes (equal=%v %s); the sender built count %d and %d bytes",
+				idx, site, len(items), z2.RecordCount, len(z2.Records), bytes.Equal(z2.Records, d.Raw), vh.Clip(o.Panic, 120), h.Count, len(d.Raw))
+		}
+	}
+	// model probes
+	if len(h.Snap) <= 300 && len(e.probes) < 2 && idx%2 == 0 {
+		hdr := fmt.Sprintf("%d,%d,%d,%d,%d", z.Pcode, z.Oid, z.Okind, z.Onode, z.Time)
+		hx := "-"
+		if len(h.Snap) > 0 {
+			hx = vh.Hex(h.Snap)
+		}
+		e.probes = append(e.probes,
+			probe{fmt.Sprintf("W %s %d %d %s", hdr, h.Status, h.Count, hx), vh.Hex(wire)},
+			probe{"U " + vh.Hex(wire) + vh.Hex(sentinel), fmt.Sprintf("%s %d %d %s rest=%d", hdr, h.Status, h.Count, hx, len(sentinel))})
+	}
 }
 
 func idsStr(ids []int) string {
@@ -429,6 +567,8 @@ func runDet(c *Case, e *evalCtx) *detResult {
 		snd = zip.NewForVerif(cl, toVS(c.Settings))
 	}
 	hasQueue := snd.Queue != nil
+	curClient := 0                      // the client in force (SetTcpClient)
+	clientAt := make([]int, len(c.Ops)) // … during each operation
 	// the settings that MUST be in force: the harness's own reading of the history (initial settings,
 	// then every ApplyConfig: key present -> its value, absent -> the documented fall-back).  Flush and
 	// compression are judged against these, not against what the sender reports about itself.
@@ -469,7 +609,23 @@ func runDet(c *Case, e *evalCtx) *detResult {
 		appended := -1     // id of the (serialisable) record passed to Append by this op
 		failedAppend := -1 // id of the unserialisable record passed to Append / skipped by the loop
 		flushOnly := false
+		if o.K == "client" {
+			curClient = o.N
+		}
+		clientAt[i] = curClient
 		switch o.K {
+		case "client":
+			// SetTcpClient replaces the client and nothing else: no hand-over, the batch stays as it is
+			out = vh.Guard(func() {
+				if o.N == 0 {
+					snd.SetTcpClient(cl)
+				} else {
+					snd.SetTcpClient(&altClient{main: cl, id: o.N})
+				}
+			})
+			if c1, l1, f1 := snd.BufferedForVerif(); c1 != cnt0 || l1 != len0 || f1 != first0 {
+				e.corr("SetTcpClient:changed-batch", "op %d: SetTcpClient changed the batch under construction: count %d -> %d, bytes %d -> %d, first time %d -> %d", i, cnt0, c1, len0, l1, first0, f1)
+			}
 		case "add":
 			// the unchanged queue semantics: a full bounded queue refuses the newcomer and keeps
 			// what it accepted; capacity <= 0 means unbounded
@@ -675,7 +831,13 @@ func runDet(c *Case, e *evalCtx) *detResult {
 		}
 		ids, d := e.checkPack(h, site, zm, k)
 		packIDs = append(packIDs, ids)
-		res.packs = append(res.packs, e.packLine(src, d, ids))
+		res.packs = append(res.packs, e.packLine(src, d, ids)+"@"+strconv.Itoa(h.Dest))
+		// (a hand-over made BY SetTcpClient itself — the unchanged code makes none — may go to either client
+		// as far as the property is concerned; the comparison with the model reports it)
+		if h.OpIdx >= 0 && h.OpIdx < len(clientAt) && h.Dest != clientAt[h.OpIdx] && c.Ops[h.OpIdx].K != "client" {
+			e.prop("SetTcpClient:pack-handed-to-replaced-client", "pack #%d (%s, records %s) was handed over during op %d, when client %d was the sender's TCP client (SetTcpClient), but client %d received it",
+				k, site, idsStr(ids), h.OpIdx, clientAt[h.OpIdx], h.Dest)
+		}
 		if src == "S" {
 			sharedIDs = append(sharedIDs, ids...)
 		} else {
